@@ -16,6 +16,15 @@ BytesPerColumn(h) == (h + 7) \div 8
 DataBytes(w, h)   == HeaderLen + w * BytesPerColumn(h)
 TotalBytes(w, h)  == ((DataBytes(w, h) + 15) \div 16) * 16
 
+\* The same two quantities for pages beyond TLC's 32-bit integers (the library computes them in a 64-bit usize): the padded
+\* length counted in 16-byte chunks, and a byte index as a pair <<hi, lo>> meaning hi * 65536 + lo.  Valid while the page is
+\* smaller than 2^34 bytes and a column shorter than 2^14 bytes; MC_Layout checks that they agree with the definitions above
+\* wherever both apply.
+WideChunks(w, h) == LET bpc == BytesPerColumn(h) IN w * (bpc \div 16) + (w * (bpc % 16) + HeaderLen + 15) \div 16
+WideIndex(h, x, y) == LET bpc == BytesPerColumn(h)
+                          raw == (x % 65536) * bpc + HeaderLen + y \div 8
+                      IN <<(x \div 65536) * bpc + raw \div 65536, raw % 65536>>
+
 MkPage(w, h, bytes) == [w |-> w, h |-> h, bytes |-> bytes]
 
 NewBytes(id, w, h) ==
